@@ -312,88 +312,94 @@ ALL = ['C%02d' % i for i in range(1, 21)]
 EXTRA = {
     'C02': ('capacity provenance of the vote counter; provenance of the '
             'label list indexed by the ranking; None-test guard of the '
-            'correlation inheritance; zip lock-step',
+            'correlation inheritance; zip lock-step; parameter forwarding along the call chain',
             'Also decides: the integer type of the vote counter is sized '
             'from the iteration count of the loop that increments it; the '
             'label list the ranking is translated with is the caller\'s or '
             'the one returned with the aggregated votes; the average '
             'correlation of a voted level is replaced only under an `is '
             'None` test; neighbour and correlation lists are zipped in '
-            'lock-step; zero norms are replaced on a test of the norm.'),
+            'lock-step; zero norms are replaced on a test of the norm. Settings the property depends on are bound at every call whose callee would otherwise fall back to a default.'),
     'C04': ('shared random stream modelled as an order-sensitive '
-            'accumulator',
+            'accumulator; parameter forwarding along the call chain',
             'Also: a draw from a shared generator inside a loop whose '
             'visiting order carries an order label yields a labelled '
             'value; key order of nested dicts is tracked; numeric '
             'accumulation in a labelled visiting order (also inside a '
             'callee, also through lists of lists) is a labelled value; '
             'selecting a loop element under a test in a labelled loop '
-            'labels the selection.'),
+            'labels the selection. Settings the property depends on are bound at every call whose callee would otherwise fall back to a default.'),
     'C05': ('write-cursor discipline, loop-coverage must-pass, exact '
-            'tiling of chunked loops, index-space typing of numpy code',
+            'tiling of chunked loops, index-space typing of numpy code; permutation pairing of sorted reads; parameter forwarding along the call chain',
             'Also decides: write cursors of the assembly loops are used, '
             'advanced and recorded in every iteration; chunked loops tile '
             'their axis (window = step, clamp = bound, step and bound on '
             'the same axis); in the transposition, slices and gathers are '
             'applied in the index space they were computed in; pointer '
-            'values are never scatter positions.'),
+            'values are never scatter positions. Rows read in sorted order are put back with the matching permutation, once, and before every return. Settings the property depends on are bound at every call whose callee would otherwise fall back to a default.'),
     'C07': ('ordering-key provenance; column-gather detection on symbolic '
-            'terms',
+            'terms; parameter forwarding along the call chain',
             'Also decides: no ordering step on the way to the per-parent '
             'index arrays of the marker cache depends on query positions; '
             'the array normalised in the chunk loops has not been cut by '
-            'column; the CPM divisor replaces zero totals only.'),
-    'C08': ('iteration-order provenance of the in-place patching loop',
+            'column; the CPM divisor replaces zero totals only. Settings the property depends on are bound at every call whose callee would otherwise fall back to a default. (in particular the declared normalization).'),
+    'C08': ('iteration-order provenance of the in-place patching loop; index capacity typing; parameter forwarding along the call chain',
             'Also decides: parents are patched deepest first; the '
             'unknown-to-reference test is made on the unfiltered marker '
-            'table.'),
+            'table. Gene positions stored with an explicitly chosen integer type are sized from the list they point into. Settings the property depends on are bound at every call whose callee would otherwise fall back to a default.'),
     'C09': ('loop-coverage must-pass, merge initial value, guard form, '
-            'exact tiling',
+            'exact tiling; key-space agreement of the dataset tables; parameter forwarding along the call chain',
             'Also decides: every chunk reaches _process_chunk; merged '
             'tables start from zeros; files are compared by gene sequence '
             'before column-wise addition; chunk windows tile the rows; '
             'per-file state of a worker is refreshed on a test of the '
             'file; files merged by position are compared on their '
-            'complete numbering tables.'),
-    'C10': ('loop-coverage must-pass in the tree builder',
+            'complete numbering tables. The ABC front end keys its dataset tables by the label as given. Settings the property depends on are bound at every call whose callee would otherwise fall back to a default.'),
+    'C10': ('loop-coverage must-pass in the tree builder; must-derive of the leaf pairs',
             'Also decides: the builder records every parent-child link of '
             'every row before validation (no early exit); tables filled '
             'in loops over the levels are keyed by (level, label); memo '
             'keys are complete; zipped lists are in lock-step; the '
-            'release term-table reader records every row.'),
-    'C13': ('write-cursor discipline, index-space typing, exact tiling',
+            'release term-table reader records every row. leaves_to_compare answers through get_all_leaf_pairs or a short-cut tested on the parent\'s own children.'),
+    'C13': ('write-cursor discipline, index-space typing, exact tiling; permutation pairing of sorted reads',
             'Also decides: cursor discipline of the join / amalgamation '
             'loops, index spaces of the transposition, tiling of all '
-            'chunked loops in the anchored modules.'),
+            'chunked loops in the anchored modules. Sorted row reads are un-sorted before every return.'),
     'C15': ('producer/consumer agreement of CSV column names, '
-            'loop-coverage',
+            'loop-coverage; shared-mutable idiom',
             'Also decides: the confidence-column rename spells names as '
             'blob_to_df builds them; every cell gets a CSV row; name '
             'lookups are keyed by (level, label); the CSV is written '
-            'with the stored tree.'),
-    'C16': ('exact tiling of the scanning loops, lookup provenance',
+            'with the stored tree. No per-level table is built from one shared mutable object.'),
+    'C16': ('exact tiling of the scanning loops, lookup provenance; must-pass-through of the mapper call; parameter forwarding along the call chain',
             'Also decides: min/max, integrality and rounding scans tile '
             'their matrix exactly; gene identifiers are looked up as '
             'given and clipped afterwards; every window of a rounding '
-            'loop is written.'),
-    'C17': ('back-fill provenance (shared with C01)',
+            'loop is written. Every verdict of the gene renaming step is given after the mapper was consulted. Settings the property depends on are bound at every call whose callee would otherwise fall back to a default.'),
+    'C17': ('back-fill provenance (shared with C01); parameter forwarding along the call chain',
             'Also decides: the dropped level is back-filled through the '
             'parent table of that level; node tables are keyed by (level, '
-            'label); zipped lists are in lock-step.'),
+            'label); zipped lists are in lock-step. Settings the property depends on are bound at every call whose callee would otherwise fall back to a default.'),
     'C18': ('sign analysis of cell-count denominators; merge rules shared '
-            'with C09',
+            'with C09; parameter forwarding along the call chain',
             'Also decides: no division by a possibly-zero cell count; '
-            'worker buffers are each added once.'),
+            'worker buffers are each added once. Settings the property depends on are bound at every call whose callee would otherwise fall back to a default.'),
     'C19': ('library-level freshness of listed directories and scratch '
-            'file names',
+            'file names; parameter forwarding along the call chain',
             'Also decides, per function: a listed directory was created '
             'under a unique name by the lister (or handed over whole); no '
-            'predictable file name directly under a scratch parameter.'),
+            'predictable file name directly under a scratch parameter. Settings the property depends on are bound at every call whose callee would otherwise fall back to a default. (two documented exceptions where a callee creates its own scratch directory).'),
     'C20': ('value identity inside the sanitiser; ancestor walk of the '
-            'exposure test',
+            'exposure test; exception rendering of path-bearing messages; parameter forwarding along the call chain',
             'Also decides: the replaced text is the word as it occurs, '
             'the replacement is a bare or package-relative name, and '
-            'is_exposed tests every ancestor.'),
+            'is_exposed tests every ancestor. Path-bearing messages are not raised as KeyError (repr-rendered). Settings the property depends on are bound at every call whose callee would otherwise fall back to a default.'),
+    'C01': ('must-pass-through of the failing verdicts of the pre-flight reconciliation',
+            "Also decides: the marker cache / taxonomy reconciliation can fail only after a parent of the run's tree was found without markers."),
+    'C03': ('parameter forwarding along the call chain',
+            'Settings the property depends on are bound at every call whose callee would otherwise fall back to a default.'),
+    'C14': ('parameter forwarding along the call chain',
+            'Settings the property depends on are bound at every call whose callee would otherwise fall back to a default.'),
 }
 
 
